@@ -103,10 +103,9 @@ func verifK_Receiver() {
 	verifGo("acceptor", func() {
 		for i := 0; i < nacc; i++ {
 			sz := uint(verifU8("sz"))
-			wasClosed := r.closed // (cooperative scheduling: no switch between this read and accept's own check unless accept blocks on the mutex)
-			if rcv.accept(vitem{sz, i + 1}) == nil && !wasClosed && !r.closed {
-				accepted = append(accepted, i+1)
-			}
+			verifAssume(sz <= 30) // no overrun here (window 100, <=3 items): that is S-RECV-STEP's subject
+			_ = rcv.accept(vitem{sz, i + 1})
+			accepted = append(accepted, i+1)
 		}
 	})
 	verifGo("consumer", func() {
@@ -136,11 +135,16 @@ func verifK_Receiver() {
 		verifAssert(r.items.Len() == 0 && !r.closed && !r.cancelled, "C05.k-consumer-parked-only-when-empty-and-open")
 	}
 	// what was dequeued is a prefix (in order, no duplicates) of what was accepted
+	// what was dequeued is a prefix of what was submitted: in order, no duplicate, no gap, nothing fabricated
 	for i, id := range got {
-		verifAssert(i < len(accepted), "C01.k-no-fabricated-item")
-		if i < len(accepted) {
-			verifAssert(id == accepted[i], "C01.k-fifo-prefix")
+		verifAssert(id == i+1 && id <= len(accepted), "C01.k-fifo-prefix")
+	}
+	if closer == 0 {
+		want := ndeq
+		if nacc < want {
+			want = nacc
 		}
+		verifAssert(len(got) == want, "C01.k-nothing-lost-without-close")
 	}
 	verifAssert(credits == consumed, "C05+C06.k-credit-equals-consumed")
 	verifAssert(!verifMutexHeld(&r.mu), "C15.k-recv-mutex-released")
